@@ -115,3 +115,17 @@ package main
 //@ func (h *handler) handleDescribeConfigs
 //@   static_only C24
 //@   guarded [C24.describe_configs_needs_fetch_permission] FetchTopicConfig(_, $n) by allowTopic(_, _, $n, "fetch") is true
+
+// ---- list checks: allowTopics says yes only if every listed topic passed allowTopic; the topic lists are the
+// request's topics in order (c24TopicAllowed is a ghost predicate introduced, definitionally, after a successful
+// allowTopic call; spec/acl_handlers.spec) ----
+//@ func (h *handler) allowTopics
+//@   at allowTopic#1 after assume ret0 ==> c24TopicAllowed(arg0, arg1, arg2)
+//@   ensures [C24.allow_topics_means_every_topic_allowed] result ==> (forall i int :: 0 <= i && i < len(topics) ==> c24TopicAllowed(principal, topics[i], action))
+//@   loop 1 invariant -1 <= rangeindex && rangeindex < len(topics) && (forall i int :: 0 <= i && i <= rangeindex ==> c24TopicAllowed(principal, topics[i], action))
+//@ func topicsFromListOffsets
+//@   ensures [C24.list_offsets_topic_list_is_the_request] len(result) == len(req.Topics) && (forall i int :: 0 <= i && i < len(req.Topics) ==> result[i] == req.Topics[i].Topic)
+//@   loop 1 invariant -1 <= rangeindex && rangeindex < len(req.Topics) && len(topics) == rangeindex + 1 && (forall i int :: 0 <= i && i <= rangeindex ==> topics[i] == req.Topics[i].Topic)
+//@ func topicsFromOffsetForLeaderEpoch
+//@   ensures [C24.offset_for_leader_epoch_topic_list_is_the_request] len(result) == len(req.Topics) && (forall i int :: 0 <= i && i < len(req.Topics) ==> result[i] == req.Topics[i].Topic)
+//@   loop 1 invariant -1 <= rangeindex && rangeindex < len(req.Topics) && len(topics) == rangeindex + 1 && (forall i int :: 0 <= i && i <= rangeindex ==> topics[i] == req.Topics[i].Topic)
